@@ -187,6 +187,28 @@ def worker(job):
             pool.pop(rnd.randrange(3, len(pool)))
         if n % 50 == 0:
             R.sample(dict(backend=be, op=op, scalar=sc, terms=size(r)), cap=5)
+    # augmented assignment on a name that aliases an operand: `acc = a; acc += b` must leave `a` alone
+    for n in range(max(50, job["n"] // 20)):
+        a, b = rnd.choice(pool), rnd.choice(pool)
+        da, ea, eb = deep(a), ev(a), ev(b)
+        op = rnd.choice(["+=", "-=", "*="])
+        acc = a
+        if op == "+=":
+            acc += b
+            want = (ea + eb) % p
+        elif op == "-=":
+            acc -= b
+            want = (ea - eb) % p
+        else:
+            k = rnd.choice([0, 1, -1, 7, p + 3, -(1 << 300)])
+            acc *= k
+            want = ea * k % p
+        R.count("augmented_ops_checked")
+        R.case(cell="%s|augmented %s" % (be, op), key=(be, op, da[:4], n))
+        if deep(a) != da:
+            R.violation("operand-mutated:augmented", "`acc = a; acc %s b` changed a" % op, backend=be)
+        if ev(acc) != want:
+            R.violation("evaluation-differs:augmented", "`acc %s b` evaluates to %s, expected %s" % (op, ev(acc), want), backend=be)
     # the shared constant must still be the constant
     if ev(shared_one) != 1 or ev(mod.one()) != 1 or ev(mod.zero()) != 0:
         R.violation("shared-constant-mutated", "one()/zero() no longer evaluate to 1/0 after the workload", backend=be)
